@@ -278,7 +278,7 @@ func (e *Engine) guessArraySort(name string) Sort {
 		return ArrSort(SInt)
 	case name == "ghost.sent", name == "ghost.delivered":
 		return ArrSort(ArrSort(SInt))
-	case strings.HasPrefix(name, "ghost.gauge"):
+	case strings.HasPrefix(name, "ghost.gauge"), strings.HasPrefix(name, "ghost.ev:"):
 		return ArrSort(SInt)
 	case strings.HasPrefix(name, "once:"), name == "ghost.chanready", name == "ghost.ctxcancelled":
 		return ArrSort(SBool)
